@@ -56,6 +56,9 @@ def strategy(tier):
         prog += draw(st.lists(commit, max_size=1))
         prog.append(['inflight', 'vote'])
         prog.append(['backup', draw(st.sampled_from([False, False, True])), draw(b) or quick, draw(b), False])
+        for _ in range(draw(st.sampled_from([0, 0, 1, 2]))):
+            # further backups while the same transaction is still in progress (several empty increments in a row)
+            prog.append(['backup', False, draw(b) or quick, draw(b), False])
         prog.append(['inflight', draw(st.sampled_from(['finish', 'abort']))])
         if draw(b):
             prog.append(['pack'])
